@@ -2,7 +2,7 @@
 import ast
 
 from ..core.db import AnalysisError, norm_stmt, walk_no_nested
-from ..core.interp import Interp, Const, Tup, Unknown
+from ..core.interp import Interp, Const, Tup, Unknown, Obj
 from ..core.norm import Rat
 from ..domains.index import Shaped, IndexDomain
 from ..domains.kernel import Mat, Prod2, exp_arg
@@ -195,15 +195,39 @@ def freespace_rules(run, db):
             run.check(ok, 'C02.freespace', f.qual, 'structure tf=%s' % ('given' if given else 'computed'), 'angular_spectrum == ifft2(fft2(field) * tf), matching normalisation',
                       'angular_spectrum is not ifft2(fft2(field) * tf) with matching normalisations on the path tf %s: %r' % ('given' if given else 'computed', v), f.loc())
     # Wavefront.free_space delegates with its own dx and wavelength
+    # decided by interpreting the method with angular_spectrum summarised: the values bound to its parameters, however they are passed
+    from .common import bind_call
     f = db.func(P + 'Wavefront.free_space')
-    calls = [n for n in walk_no_nested(f.node) if isinstance(n, ast.Call) and ast.unparse(n.func) == 'angular_spectrum']
-    if len(calls) != 1:
-        raise AnalysisError('Wavefront.free_space: angular_spectrum call not found')
-    kw = {k.arg: ast.unparse(k.value) for k in calls[0].keywords}
-    pos = [ast.unparse(a) for a in calls[0].args]
-    want = {'wvl': 'self.wavelength', 'dx': 'self.dx', 'z': 'dz', 'Q': 'Q', 'tf': 'tf'}
-    run.check(pos[:1] == ['self.data'] and all(kw.get(k) == v for k, v in want.items()), 'C02.freespace', f.qual, 'delegation', 'free_space passes (data, wavelength, dx, dz, Q, tf) in their roles',
-              'free_space passes %s %s' % (pos, kw), f.loc(calls[0]))
+    fa = db.func(P + 'angular_spectrum')
+    it, dom = K.mk(db, {})
+    seen_calls = []
+
+    def call_prysm(fi, args, kwargs, node, orig=dom.call_prysm):
+        if fi.qual == fa.qual:
+            seen_calls.append((bind_call(fi, args, kwargs), node))
+            return dom.array('propagated', 'n0', 'n1')
+        return orig(fi, args, kwargs, node) if orig else None
+    dom.call_prysm = call_prysm
+    ciw = db.cls(P + 'Wavefront')
+
+    def mkself():
+        o = Obj(ciw)
+        o.attrs.update({'data': dom.array('ary', 'n0', 'n1'), 'dx': dom.sym('DX'), 'wavelength': dom.sym('WL'), 'space': Const('pupil')})
+        return o
+    res = [p for p in it.run(f, kwargs=lambda: {'dz': dom.sym('dz'), 'Q': dom.sym('Qpad'), 'tf': dom.array('tf', 'n0', 'n1')}, self_obj=mkself) if p.outcome == 'return']
+    if not res or not seen_calls:
+        raise AnalysisError('Wavefront.free_space: no returning path reaches angular_spectrum')
+    for b, node in seen_calls:
+        rk = lambda v: dom.rat(v).key() if dom.rat(v) is not None else None
+        ok = isinstance(b.get('field'), Shaped) and b['field'].label == 'ary' and rk(b.get('wvl')) == 'WL' and rk(b.get('dx')) == 'DX' and rk(b.get('z')) == 'dz' \
+            and rk(b.get('Q')) == 'Qpad' and isinstance(b.get('tf'), Shaped) and b['tf'].label == 'tf'
+        run.check(ok, 'C02.freespace', f.qual, 'delegation', 'free_space passes (data, wavelength, dx, dz, Q, tf) in their roles',
+                  'free_space calls angular_spectrum with %s' % {k: (getattr(v, 'label', None) or rk(v) or repr(v)) for k, v in sorted(b.items())}, f.loc(node))
+    for p in res:
+        w = p.value
+        okw = isinstance(w, Obj) and isinstance(w.attrs.get('data'), Shaped) and w.attrs['data'].label == 'propagated' and dom.rat(w.attrs.get('dx')) is not None \
+            and dom.rat(w.attrs['dx']).key() == 'DX' and dom.rat(w.attrs.get('wavelength')) is not None and dom.rat(w.attrs['wavelength']).key() == 'WL'
+        run.check(okw, 'C02.freespace', f.qual, 'result', 'the propagated field is returned with the same dx and wavelength', 'free_space does not return Wavefront(propagated, wavelength, dx)', f.loc())
 
 
 def check(run, db, tier):
